@@ -198,3 +198,28 @@ Definition decompress_cert_top (eof_early : bool) (advertised : list N) (alg dec
            (fs : zframes) (r : reader) : res C :=
   decompress_cert C parse_cert eof_early advertised alg declared open_ok (effective alg fs r).
 End Top.
+
+(* ---------- the certificate flight and the transcript (handshake_client_tls13.go:784-829, u_handshake_client.go:24-48) ----------
+   After EncryptedExtensions the server sends [CertificateRequest] (Certificate | CompressedCertificate) ... .
+   readServerCertificate reads each of these with a nil transcript and writes them itself: the CertificateRequest as
+   soon as it is recognised, a CompressedCertificate inside utlsReadServerCertificate (as received, NOT the decompressed
+   Certificate), a plain Certificate after it has been parsed.  The transcript is the list of writes in program order. *)
+Inductive fmsg := FCertReq | FCert | FCompressed.
+
+(* [cc_ok]: the client uses a compress_certificate extension and decompressCert succeeds *)
+Definition client_cert_flight (received : list fmsg) (cc_ok : bool) : res (list fmsg) :=
+  match received with
+  | [] => Err alertUnexpectedMessage
+  | m0 :: rest0 =>
+      let '(t1, m, rest) :=
+        match m0 with
+        | FCertReq => match rest0 with m1 :: r => ([FCertReq], Some m1, r) | [] => ([FCertReq], None, []) end   (* :792-803 *)
+        | _ => ([], Some m0, rest0)
+        end in
+      match m with
+      | None => Err alertUnexpectedMessage
+      | Some FCompressed => if cc_ok then Ok (t1 ++ [FCompressed]) else Err alertBadCertificate   (* transcriptMsg in utlsReadServerCertificate *)
+      | Some FCert => Ok (t1 ++ [FCert])                                                        (* :826 *)
+      | Some FCertReq => Err alertUnexpectedMessage
+      end
+  end.
